@@ -29,7 +29,9 @@ ASSUMPTIONS = c06.ASSUMPTIONS + ['release events reply void',
 
 op = st.fixed_dictionaries({'op': st.sampled_from(['claim', 'claim', 'release', 'release', 'other',
                                                    'raise', 'raise']),
-                            'c': st.integers(0, 3), 'e': st.integers(0, 7), 'grant': st.booleans()})
+                            'c': st.integers(0, 3), 'e': st.integers(0, 7), 'grant': st.booleans(),
+                            # the component raises an out-event while it handles this in-event
+                            'react': st.sampled_from([False, False, True])})
 history = st.fixed_dictionaries({'clients': st.integers(1, 4),
                                  'naming': st.sampled_from(['K', 'K', 'prefix-desc', 'prefix-asc',
                                                             'reverse']),
@@ -89,20 +91,34 @@ def interpret(facts, hist):
             steps.append({'i': i, 'kind': 'in', 'client': c, 'ev': facts.claim, 'forced': idx,
                           'q': list(q)})
         elif o['op'] == 'release':
+            react = None
+            if o.get('react') and facts.outs:
+                react = {'ev': facts.outs[o['e'] % len(facts.outs)], 'q': list(q), 'stale': stale}
+                script.append(f'react {nm}.{facts.release["name"]} {nm} {react["ev"]["name"]}')
             script += [f'mccall {c} {nm} {facts.release["name"]}', 'idle']
+            if react:
+                script.append('unreact')
             if c in q:
                 if q[-1] == c and len(q) > 1:
                     stale = True
                 q.remove(c)
             stale = stale and bool(q)
-            steps.append({'i': i, 'kind': 'in', 'client': c, 'ev': facts.release, 'q': list(q)})
+            steps.append({'i': i, 'kind': 'in', 'client': c, 'ev': facts.release, 'q': list(q),
+                          'react': react})
         elif o['op'] == 'other':
             if not facts.others:
                 script.pop()
                 continue
             ev = facts.others[o['e'] % len(facts.others)]
+            react = None
+            if o.get('react') and facts.outs:
+                react = {'ev': facts.outs[(o['e'] // 2) % len(facts.outs)], 'q': list(q),
+                         'stale': stale}
+                script.append(f'react {nm}.{ev["name"]} {nm} {react["ev"]["name"]}')
             script += [f'mccall {c} {nm} {ev["name"]}', 'idle']
-            steps.append({'i': i, 'kind': 'in', 'client': c, 'ev': ev, 'q': list(q)})
+            if react:
+                script.append('unreact')
+            steps.append({'i': i, 'kind': 'in', 'client': c, 'ev': ev, 'q': list(q), 'react': react})
         else:
             if not facts.outs:
                 script.pop()
@@ -132,9 +148,21 @@ def judge(facts, hist, steps, trace, rc, err):
         rs = [t for t in lines if t['k'] == 'r']
         what = f'step {s["i"]} ({s["kind"]} {ev["name"]}' + \
             (f' by {s["client"]}' if 'client' in s else '') + f', claim holders {s["q"]})'
-        if len(cs) != 1 or len(rs) != 1:
+        react = s.get('react')
+        n_calls = 2 if react else 1
+        if len(cs) != n_calls or len(rs) != n_calls:
             raise Fail(f'{what}: call did not complete: {[t for t in lines if t["k"] == "note"]}',
                        'incomplete')
+        if react:
+            # the out-event the component raised while handling this in-event: judged like any
+            # other out-event, against the claim state *before* the in-event took effect
+            inner = [t for t in cs if t['side'] == 'comp'][0]
+            judge_out(nm, f'{what}, out-event {react["ev"]["name"]} raised while the component '
+                      f'handled it (claim holders then {react["q"]})', react['ev'], react['q'],
+                      react['stale'], [h for h in hs if h['side'] == 'user'], inner)
+            cs = [t for t in cs if t['side'] != 'comp']
+            rs = [t for t in rs if t['call'] == cs[0]['call']]
+            hs = [h for h in hs if h['side'] != 'user']
         if s['kind'] == 'in':
             comp_h = [h for h in hs if h['side'] == 'comp']
             if len(comp_h) != 1 or comp_h[0]['port'] != nm or comp_h[0]['ev'] != ev['name'] or \
@@ -157,29 +185,32 @@ def judge(facts, hist, steps, trace, rc, err):
                 raise Fail(f'{what}: a client handler fired during an in-event', 'in-event-spurious')
             continue
         # component out-event
-        delivered = [h['port'].split('@')[1] for h in hs if h['side'] == 'user' and
-                     h['port'].startswith(nm + '@') and h['ev'] == ev['name']]
-        stray = [h for h in hs if not (h['side'] == 'user' and h['port'].startswith(nm + '@') and
-                                       h['ev'] == ev['name'])]
-        if stray:
-            raise Fail(f'{what}: other handlers fired: {[(h["side"], h["port"], h["ev"]) for h in stray]}',
-                       'out-event-stray')
-        q = s['q']
-        if not s.get('stale'):
-            # the holder is the most recent grantee that has not released (nobody if there is none)
-            want = q[-1:]
-            if sorted(delivered) != sorted(want):
-                raise Fail(f'{what}: out-event delivered to {delivered}, the claim is held by {want} '
-                           f'(granted and not released: {q})',
-                           'out-event-target' + ('-nobody' if not delivered else '-wrong'))
-        else:
-            if len(delivered) > 1 or any(d not in q for d in delivered):
-                raise Fail(f'{what}: out-event delivered to {delivered}; granted clients {q}',
-                           'out-event-target-multi')
-        for h in hs:
-            if h['side'] == 'user' and h['args'] != cs[0]['args']:
-                raise Fail(f'{what}: out-event arguments {cs[0]["args"]} arrived as {h["args"]}',
-                           'out-event-args')
+        judge_out(nm, what, ev, s['q'], s.get('stale'), hs, cs[0])
+
+
+def judge_out(nm, what, ev, q, stale, hs, call):
+    delivered = [h['port'].split('@')[1] for h in hs if h['side'] == 'user' and
+                 h['port'].startswith(nm + '@') and h['ev'] == ev['name']]
+    stray = [h for h in hs if not (h['side'] == 'user' and h['port'].startswith(nm + '@') and
+                                   h['ev'] == ev['name'])]
+    if stray:
+        raise Fail(f'{what}: other handlers fired: {[(h["side"], h["port"], h["ev"]) for h in stray]}',
+                   'out-event-stray')
+    if not stale:
+        # the holder is the most recent grantee that has not released (nobody if there is none)
+        want = q[-1:]
+        if sorted(delivered) != sorted(want):
+            raise Fail(f'{what}: out-event delivered to {delivered}, the claim is held by {want} '
+                       f'(granted and not released: {q})',
+                       'out-event-target' + ('-nobody' if not delivered else '-wrong'))
+    else:
+        if len(delivered) > 1 or any(d not in q for d in delivered):
+            raise Fail(f'{what}: out-event delivered to {delivered}; granted clients {q}',
+                       'out-event-target-multi')
+    for h in hs:
+        if h['side'] == 'user' and h['args'] != call['args']:
+            raise Fail(f'{what}: out-event arguments {call["args"]} arrived as {h["args"]}',
+                       'out-event-args')
 
 
 def run_history(pr, exe, facts, hist):
